@@ -27,12 +27,12 @@ PER_CLASS = 1
 MODEL_ERRORS = []       # CoqEvalErrors met during the run; the first one is re-raised once every oracle has run
 
 
-def model_eval(ctx, tag, imports, exprs, prelude=''):
+def model_eval(ctx, tag, imports, exprs, prelude='', shard=400):
     """coq_eval that cannot pre-empt the implementation-side search: on failure (the model or a generated file no longer
     compiles) the error is recorded and None is returned; the callers then skip the model diff and still run the
     property oracles on the implementation, so that a concrete failing input is reported when one exists."""
     try:
-        return coq_eval(tag, imports, exprs, prelude=prelude)
+        return coq_eval(tag, imports, exprs, prelude=prelude, shard=shard)
     except CoqEvalError as e:
         MODEL_ERRORS.append(e)
         ctx.notes.append('model evaluation failed (%s): correspondence skipped for this part, implementation-side oracles still run' % tag)
@@ -372,6 +372,7 @@ def run(ctx, scratch):
             part_paths(ctx, impl, rng, quick, root)
             part_extract(ctx, impl, rng, quick, root)
             part_edges(ctx, impl, rng, quick)
+            part_adjacency(ctx, impl, rng, quick)
             part_csv(ctx, impl, rng, quick, root)
             part_saveload(ctx, impl, rng, quick, root)
             part_graphml(ctx, impl, rng, quick, root)
@@ -389,10 +390,28 @@ def run(ctx, scratch):
                 'exactly, the model taking the int-cast decision exactly on rational weights; adjacency lists and dicts; CSV files written for real '
                 "(delimiters , tab space ;, header comment lines # and %, explicit / sep / guessed delimiter) compared with the "
                 'list of their rows and with the oracle, scan_header model vs implementation; save/load on random datasets compared '
-                'field by field; generated GraphML files. distinct = hash of (entry point, arguments); non-trivial = at least one '
-                'edge / one member / one attribute and not an error case')
-    ctx.notes.append('save/load, GraphML, non-ASCII names and non-dyadic float weights are checked by the oracle only (pickle / npz / '
-                     'ElementTree are outside the model): partial')
+                'field by field; generated GraphML files. adjacency_list:*: every list of <= 2 rows with rows of length <= 2 over {0,1,2} '
+                'and every dict with keys among a, b (both insertion orders) and neighbours among a, b, c, flag combinations rotating '
+                'through all 32 (all 32 each in the thorough tier), then random lists / string dicts / integer-key dicts with '
+                'duplicates, empty lists, neighbours that are no key, gaps, shape, matrix_only; model (vm_compute) vs implementation '
+                'vs a counting oracle written on the adjacency list. graphml:*: abstract documents (tree of tag, attributes, text, '
+                'children) serialised by hand to real files (with / without the GraphML namespace, compact / indented), re-read with '
+                'ElementTree in the harness to obtain exactly the tree the code sees, the model evaluated on that tree inside Coq, '
+                'the real from_graphml run on the file, and adjacency (dense, exact), dtype, names, every node / edge attribute '
+                'array and meta compared; exhaustive_small = every document with <= 2 nodes and <= 2 edges over all ordered pairs x '
+                'directed / undirected x {no weight key, int key with default, double key} x per edge {no data, weight data, opposite '
+                'directed override}; random = 0-6 nodes, 0-10 edges, duplicate / reversed edges, self-loops, edge-level directed, '
+                'weight key of every type with / without default, custom weight_key, 0-3 node and edge attributes of every type '
+                'with defaults / descriptions / empty texts / repeated data, ids with XML-special characters, canonical ids, '
+                'a 600-character id, max_string_size 3, nodes after edges, keys after the graph; fixed families for the shapes '
+                'the model was written around (including the two repaired ones: node key named weight, boolean false); '
+                'malformed = documents outside the input space, where only the exception class is compared with the model. '
+                'An independent reader of the standard (on the abstract tree) gives the expected nodes / entries for the property '
+                'oracle. distinct = hash of (entry point, arguments); non-trivial = at least one edge / one member / one attribute '
+                'and not an error case')
+    ctx.notes.append('save/load, non-ASCII names in edge lists and non-dyadic float weights are checked by the oracle only (pickle / npz are '
+                     'outside the model): partial. GraphML: ElementTree is the oracle for the parsed tree; the model covers everything '
+                     'from_graphml does with that tree')
     ctx.assumptions = [
         'string identifiers are not parseable as numbers (such strings are read as integers by design) and are ASCII in the model diff',
         'weights are non-zero integers or floats (a zero weight lists no edge); generated float weights are dyadic so that sums are exact '
@@ -400,7 +419,11 @@ def run(ctx, scratch):
         'CSV fields contain no delimiter candidate, quote or newline; comment lines form a header at the top of the file',
         'archives contain regular files and directories only (no links); the current directory is absolute without double leading slash',
         'Dataset attribute names are identifiers (no dot or slash)',
-        'GraphML files without parallel edges or undirected self-loops',
+        'GraphML documents: one graph element, declared nodes, keys carrying id / for / attr.name / attr.type, data literals in plain '
+        'decimal notation of the declared type, ASCII blanks; int64 / float64 do not overflow; dyadic float literals are compared '
+        'exactly, others with rel 1e-12; strings cut on characters = bytes (long ids are ASCII)',
+        'adjacency lists with at least one neighbour overall (an adjacency list without any edge defines no graph: the code raises, '
+        'or returns a 0 x 0 matrix when it reindexes)',
     ]
     if MODEL_ERRORS:        # every implementation-side oracle has run; now let the runner record the broken model evaluation
         raise MODEL_ERRORS[0]
@@ -1024,9 +1047,13 @@ def same_tree(gen, parsed, ns):
     return all(same_tree(c, pc, ns) for c, pc in zip(children, pchildren))
 
 
+GML_PRELUDE = STR_PRELUDE + '\nDefinition T (s : string) : string := ("{%s}" ++ s)%%string.' % GML_NS
+
+
 def coq_xml(t):
     tag, attrs, text, children = t
-    return '(Elem %s %s %s %s)' % (cstr(tag), clist(attrs, lambda kv: '(%s, %s)' % (cstr(kv[0]), cstr(kv[1]))),
+    ctag = '(T %s)' % cstr(tag[len(GML_NS) + 2:]) if tag.startswith('{%s}' % GML_NS) else cstr(tag)
+    return '(Elem %s %s %s %s)' % (ctag, clist(attrs, lambda kv: '(%s, %s)' % (cstr(kv[0]), cstr(kv[1]))),
                                    copt(text, cstr), clist([coq_xml(c) for c in children]))
 
 
@@ -1428,7 +1455,7 @@ def part_graphml_model(ctx, impl, rng, quick, root):
             raise RuntimeError('harness: the GraphML serialiser does not round-trip: %r' % (text[:400],))
         texts.append(text)
         exprs.append('gm_view (from_graphml %s %d %s)' % (cstr(call.get('weight_key', 'weight')), call.get('max_string_size', 512), coq_xml(parsed)))
-    model = model_eval(ctx, 'c18gml', ['Base.Util', 'Model.Graphml'], exprs, prelude=STR_PRELUDE)
+    model = model_eval(ctx, 'c18gml', ['Base.Util', 'Model.Graphml'], exprs, prelude=GML_PRELUDE, shard=max(40, (len(exprs) + 15) // 16))
     for idx, ((fam, tree, call, inq, ns, pretty), text) in enumerate(zip(cases, texts)):
         r = impl.call('c18', 'graphml_doc', dict(root=sub, text=text, **call), timeout=30)
         ctx.traces += 1
@@ -1485,3 +1512,149 @@ def gml_defect(tree, call, got, exp):
         if alt is not None and got['n'] == alt['n'] and all(_close(a, b) for ra, rb in zip(got['dense'], alt['dense']) for a, b in zip(ra, rb)):
             return 'graphml_weight_default_ignored'
     return 'other'
+
+
+# ---------------------------------------------------------------------------------------------
+# Part B.3 — from_adjacency_list (list of lists, dict): model vs implementation vs the counting oracle
+# ---------------------------------------------------------------------------------------------
+def adj_oracle(rows, fl, id_kind):
+    """rows: [(key, [neighbours])] in insertion order. Entry (i, j) = number of occurrences of j in the lists of i
+    (1 when duplicates are not summed or the graph is unweighted), symmetrised when undirected, rows = keys and
+    columns = neighbours when bipartite; names when reindexed. Written on the adjacency list, not on an edge list."""
+    reindexed = id_kind == 'str' or fl['reindex']
+    keys = [k for k, nb in rows for _ in nb]          # a key with an empty list lists no edge
+    nbs = [b for _, nb in rows for b in nb]
+    row_ids, col_ids = (keys, nbs) if fl['bipartite'] else (keys + nbs, keys + nbs)
+    if reindexed:
+        names_row, names_col = sorted(set(row_ids)), sorted(set(col_ids))
+        ri = {a: k for k, a in enumerate(names_row)}
+        ci = {a: k for k, a in enumerate(names_col)}
+        n_row, n_col = len(names_row), len(names_col)
+    else:
+        names_row = names_col = None
+        ri = {a: a for a in row_ids}
+        ci = {a: a for a in col_ids}
+        n_row, n_col = max(row_ids) + 1, max(col_ids) + 1
+        if fl['shape'] is not None:
+            n_row = max(n_row, fl['shape'][0])
+            n_col = max(n_col, fl['shape'][1 if fl['bipartite'] else 0])
+    count = {}
+    for k, nb in rows:
+        for b in nb:
+            count[(ri[k], ci[b])] = count.get((ri[k], ci[b]), 0) + 1
+    base = {p: (c if fl['weighted'] and fl['sum_duplicates'] else 1) for p, c in count.items()}
+    if fl['bipartite'] or fl['directed']:
+        ent = dict(base)
+    else:
+        ent = {}
+        for (i, j) in set(base) | {(j, i) for (i, j) in base}:
+            x, y = base.get((i, j), 0), base.get((j, i), 0)
+            ent[(i, j)] = x + y if fl['weighted'] else max(x, y)
+    mo = fl['matrix_only'] if fl['matrix_only'] is not None else not reindexed
+    return dict(shape=[n_row, n_col], entries=ent, names_row=names_row, names_col=names_col, matrix_only=mo, reindexed=reindexed)
+
+
+def part_adjacency(ctx, impl, rng, quick):
+    flags = list(all_flag_combos())
+    cases = []          # (family, form, rows, flags)
+    # exhaustive small: lists of <= 2 rows, every row any list of length <= 2 over {0, 1, 2} (node 2 appears only as a neighbour)
+    rows_opts = [[]] + [[a] for a in range(3)] + [[a, b] for a in range(3) for b in range(3)]
+    small = [[r] for r in rows_opts] + [[r, q] for r in rows_opts for q in rows_opts]
+    k = 0
+    for adj in small:
+        for rep_ in range(4 if quick else 32):
+            fl = dict(flags[(k * 7 + rep_ * (1 if not quick else 9)) % 32] if quick else flags[rep_], shape=None, matrix_only=None)
+            k += 1
+            cases.append(('list_exhaustive_small', 'list', list(enumerate(adj)), fl))
+    # exhaustive small dicts: keys among a, b (both insertion orders), neighbours among a, b, c (c is never a key)
+    sopts = [[]] + [[a] for a in 'abc'] + [[a, b] for a in 'abc' for b in 'abc']
+    dsmall = [[('a', r)] for r in sopts] + [[('b', r)] for r in sopts] + \
+             [[('a', r), ('b', q)] for r in sopts for q in sopts] + [[('b', r), ('a', q)] for r in sopts for q in sopts]
+    for rows in dsmall:
+        for rep_ in range(2 if quick else 32):
+            fl = dict(flags[(k * 5 + rep_ * 11) % 32] if quick else flags[rep_], shape=None, matrix_only=None)
+            k += 1
+            cases.append(('dict_exhaustive_small', 'dict_str', rows, fl))
+    # random: duplicates, empty lists, neighbours beyond the number of rows, keys missing for some neighbours, gaps
+    for _ in range(150 if quick else 2000):
+        fl = dict(rng.choice(flags), shape=rand_shape(rng), matrix_only=rng.choice([None, None, True, False]))
+        n = rng.randint(1, 7)
+        adj = []
+        for _i in range(n):
+            ln = rng.choice([0, 0, 1, 2, 3, 5])
+            nb = [rng.randrange(0, n + 3) for _ in range(ln)]
+            if nb and rng.random() < 0.4:
+                nb += [nb[0]] * rng.randint(1, 2)               # duplicates
+            adj.append(nb)
+        cases.append(('list_random', 'list', list(enumerate(adj)), fl))
+        keys = rng.sample(STR_POOL, rng.randint(1, 5))
+        rows = []
+        for key in keys:
+            nb = [rng.choice(STR_POOL if rng.random() < 0.5 else keys) for _ in range(rng.choice([0, 0, 1, 2, 3, 4]))]
+            if nb and rng.random() < 0.4:
+                nb += [nb[-1]]
+            rows.append((key, nb))
+        cases.append(('dict_random', 'dict_str', rows, dict(fl, shape=None)))
+        ikeys = rng.sample(range(0, 12), rng.randint(1, 5))
+        rows = [(key, [rng.choice(ikeys + [rng.randrange(0, 14)]) for _ in range(rng.choice([0, 1, 2, 3]))]) for key in ikeys]
+        cases.append(('dict_int_keys', 'dict_int', rows, fl))
+    exprs = []
+    for fam, form, rows, fl in cases:
+        if form == 'list':
+            e = 'from_adjacency_list_nat pp_sym_passes_weighted %s %s' % (flags_lit(fl), clist([nb for _, nb in rows], lambda r: clist(r, cnat)))
+        elif form == 'dict_int':
+            e = 'from_adjacency_dict_nat pp_sym_passes_weighted %s %s' % (flags_lit(fl), clist(rows, lambda r: '(%s, %s)' % (cnat(r[0]), clist(r[1], cnat))))
+        else:
+            e = 'from_adjacency_dict_str pp_sym_passes_weighted %s %s' % (flags_lit(fl), clist(rows, lambda r: '(%s, %s)' % (cstr(r[0]), clist(r[1], cstr))))
+        exprs.append('(weights_integral 1%%Z None, view (%s))' % e)
+    model = [None] * len(cases)
+    for kind in ('int', 'str'):
+        idx = [i for i, c in enumerate(cases) if (c[1] == 'dict_str') == (kind == 'str')]
+        vals = model_eval(ctx, 'c18adj' + kind, ['Base.Util', 'Model.Parse', 'Model.AdjacencyList', 'Gen.ParseCalls'], [exprs[i] for i in idx],
+                          prelude=STR_PRELUDE, shard=max(50, (len(idx) + 7) // 8))
+        for i, v in zip(idx, vals or []):
+            model[i] = conv_view(v, den=1, weighted=cases[i][3]['weighted'])
+    for i, (fam, form, rows, fl) in enumerate(cases):
+        if form == 'list':
+            args = dict(adj=[nb for _, nb in rows], flags=fl)
+        else:
+            args = dict(adj=[[key, nb] for key, nb in rows], flags=fl, dict=True)
+        r = impl.call('c18', 'adjacency_list', args, timeout=30)
+        ctx.traces += 1
+        got = conv_impl(r)
+        empty = not any(nb for _, nb in rows)
+        ctx.count('adjacency_list:' + fam, ('adj', form, rows, sorted(fl.items(), key=str)), not empty)
+        case = dict(args, form=form)
+        if model[i] is not None:
+            if empty:           # no edge at all is outside the quantifier ("at least one edge"): the code raises, or returns a
+                pass            # 0 x 0 matrix when it reindexes; the model has no graph; nothing is compared
+            elif {k2: v for k2, v in got.items() if k2 != 'detail'} != model[i]:
+                report(ctx, 'from_adjacency_list', 'implementation differs from the model', case=case, expected=model[i], observed=got,
+                       kind='correspondence', family=fam)
+        if empty:
+            continue
+        id_kind = 'str' if form == 'dict_str' else 'int'
+        exp = adj_oracle(rows, fl, id_kind)
+        if got.get('err'):
+            report(ctx, 'from_adjacency_list', 'implementation raises on a valid input', case=case, expected=_js(exp), observed=got.get('detail'),
+                   defect='other', family=fam)
+            continue
+        problems = []
+        if got['shape'] != exp['shape']:
+            problems.append('shape')
+        if {(a, b): w for a, b, w in got['triples']} != {p: Fraction(w) for p, w in exp['entries'].items()}:
+            problems.append('entries')
+        if got['matrix_only'] != exp['matrix_only']:
+            problems.append('matrix_only')
+        if not got['matrix_only']:
+            if fl['bipartite']:
+                if got['names_row'] != exp['names_row'] or got['names_col'] != exp['names_col'] or got['names'] != exp['names_row']:
+                    problems.append('names')
+            elif got['names'] != exp['names_row']:
+                problems.append('names')
+        if problems:
+            report(ctx, 'from_adjacency_list', 'matrix / names differ from the adjacency list (%s)' % ','.join(problems), case=case,
+                   expected=_js(exp), observed=got, defect='adjacency_list_' + '_'.join(problems), family=fam,
+                   weighted=fl['weighted'], directed=fl['directed'], bipartite=fl['bipartite'])
+        if fam == 'dict_random' and i % 97 == 0:
+            ctx.sample(dict(kind='from_adjacency_list', family=fam, args=args, model=model[i], impl=got), limit=9)
